@@ -2,3 +2,69 @@
 #[allow(unused_imports)]
 use super::*;
 include!("/verif/replay/in_crate/common.rs");
+use crate::core::util::test::test_manager::test::TestManager;
+use crate::core::consensus::blockchain::AddBlockResult;
+
+/// C01: a block carrying a user transaction whose signature does not verify must be rejected by block validation
+#[tokio::test]
+#[serial_test::serial]
+async fn sweep_rejects_invalid_tx() {
+    let mut t = TestManager::default();
+    t.initialize(100, 200_000_000_000_000).await;
+    let (block1_hash, ts) = { let bc = t.blockchain_lock.read().await; let b = bc.get_latest_block().unwrap(); (b.hash, b.timestamp) };
+    let mut block2 = t.create_block(block1_hash, ts + 120000, 1, 1000, 0, true).await;
+    let private_key = { t.wallet_lock.read().await.private_key };
+    // forge: flip one bit of the user transaction's signature, then let the (honest-looking) producer re-commit and re-sign the block
+    let idx = block2.transactions.iter().position(|tx| tx.transaction_type == TransactionType::Normal).expect("a normal tx");
+    block2.transactions[idx].signature[5] ^= 0x40;
+    let still_valid = { let bc = t.blockchain_lock.read().await; block2.transactions[idx].validate(&bc.utxoset, &bc, true) };
+    assert!(!still_valid, "the forged transaction must fail Transaction::validate");
+    block2.merkle_root = [0; 32];
+    block2.generate().unwrap();
+    block2.sign(&private_key);
+    block2.generate().unwrap();
+    let h = block2.hash;
+    let res = t.add_block(block2).await;
+    let tip = { t.blockchain_lock.read().await.get_latest_block_hash() };
+    if tip == h || matches!(res, AddBlockResult::BlockAddedSuccessfully(..)) {
+        witness(format!("block with a transaction whose signature does not verify (Transaction::validate == false) was accepted as the new tip: add_block → {:?}", res));
+    }
+}
+
+fn decode_guarded(buf: &[u8]) -> Result<bool, String> {
+    let b = buf.to_vec();
+    let prev = std::panic::take_hook();
+    std::panic::set_hook(Box::new(|_| {}));
+    let r = std::panic::catch_unwind(move || Block::deserialize_from_net(&b).is_ok());
+    std::panic::set_hook(prev);
+    r.map_err(|e| e.downcast_ref::<String>().cloned().or_else(|| e.downcast_ref::<&str>().map(|s| s.to_string())).unwrap_or_default())
+}
+
+/// C10: Block::deserialize_from_net is total (truncations, count corruptions, random)
+#[test]
+fn decoder_total() {
+    let mut rng = Rng::from_env();
+    for _ in 0..60 {
+        let mut b = Block::new();
+        b.id = rng.edge_u64(); b.timestamp = rng.edge_u64(); b.previous_block_hash = rng.arr(); b.creator = rng.arr(); b.merkle_root = rng.arr(); b.signature = rng.arr();
+        b.burnfee = rng.edge_u64(); b.treasury = rng.edge_u64();
+        for _ in 0..rng.below(3) {
+            let mut tx = Transaction::default();
+            let dl = rng.below(20) as usize; tx.data = rng.bytes(dl);
+            for _ in 0..rng.below(3) { let mut s = Slip::default(); s.amount = rng.edge_u64(); s.public_key = rng.arr(); tx.from.push(s); }
+            for _ in 0..rng.below(3) { let mut s = Slip::default(); s.amount = rng.edge_u64(); s.public_key = rng.arr(); tx.to.push(s); }
+            b.transactions.push(tx);
+        }
+        let enc = b.serialize_for_net(BlockType::Full);
+        let d = Block::deserialize_from_net(&enc).unwrap_or_else(|_| witness("valid block encoding rejected".into()));
+        if d.id != b.id || d.timestamp != b.timestamp || d.previous_block_hash != b.previous_block_hash || d.creator != b.creator || d.merkle_root != b.merkle_root
+            || d.signature != b.signature || d.burnfee != b.burnfee || d.treasury != b.treasury || d.transactions.len() != b.transactions.len() { witness("block header does not round trip".into()); }
+        if d.serialize_for_net(BlockType::Full) != enc { witness("block re-encoding differs".into()); }
+        for cut in 0..enc.len() { if let Err(p) = decode_guarded(&enc[..cut]) { witness(format!("Block::deserialize_from_net panicked on a {}-byte truncation of a {}-byte block: {}", cut, enc.len(), p)); } }
+        for v in [0u32, 1, 2, 255, 256, 0x7fffffff, 0xffffffff] {
+            let mut c = enc.clone(); c[0..4].copy_from_slice(&v.to_be_bytes());
+            if let Err(p) = decode_guarded(&c) { witness(format!("Block::deserialize_from_net panicked with transaction count {}: {}", v, p)); }
+            if enc.len() >= 389 + 16 { for f in 0..4 { let mut c = enc.clone(); c[389 + 4 * f..389 + 4 * f + 4].copy_from_slice(&v.to_be_bytes()); if let Err(p) = decode_guarded(&c) { witness(format!("Block::deserialize_from_net panicked with first-tx length field {} = {}: {}", f, v, p)); } } }
+        }
+    }
+}
